@@ -32,7 +32,7 @@ package genql
 //@   requires q: query != nil
 //@   requires opts: query.options != nil
 //@   requires wf: query.limitDefinition >= -1 && query.offsetDefinition >= -1
-//@   safety[C05] at rs[offset:]
+//@   safety[C05]
 //@   ensures no-partial-result[C19]: err != nil ==> result == nil
 //@   loop 0 ascending-range rows[C20,C01,C02]: query.from
 //@   at-call append@loop0 assert kept-row[C01]: typeis(rangevalue, Map) ==> appended == rangevalue && called(ExecWhere) && callresult(ExecWhere, 1) == nil && callresult(ExecWhere, 0)
@@ -63,6 +63,7 @@ package genql
 //@   ensures order[C08]: result.orderByDefinition == query.orderByDefinition
 //@   ensures limit[C08,C05]: result.limitDefinition == old(query.limitDefinition) && result.offsetDefinition == old(query.offsetDefinition)
 //@   ensures options[C08]: result.options == query.options
+//@   ensures memo[C08,C03]: result.singletonExecutions != nil
 //@   ensures fresh[C08,C13]: fresh(result) && result != nil
 //@   modifies nothing
 
